@@ -151,7 +151,7 @@ def run(tier):
     for i in range(80 if quick else 1500):
         sc = nested_part_scen(rng)
         scen.append(sc); scen.append(dict(sc, mode="sync"))
-    seqfam.run_scenarios(res, scen, "TraceAnalytic", tag="analytic", relayout_p=0.3, retype_p=0.3)
+    seqfam.run_scenarios(res, scen, "TraceAnalytic", tag="analytic", relayout_p=0.3, retype_p=0.3, rename_p=0.3)
     res.cov["exhaustive"] = False
     res.cov["distinct_nontrivial"] = len({s["sql"] + json.dumps(s["rows"], sort_keys=True) for s in scen})
     res.cov["rule"] = ("seeded queries with 1-3 analytic calls (lag with offset/default/ignoreNull, latest, had_changed, changed_col, acc_sum/count/avg/min/max with start and reset conditions), "
